@@ -142,6 +142,23 @@ def decide(pid, tier, seed):
     if vac_mine:
         raise P.Undecided("vacuous contract (unsatisfiable precondition) in " + ", ".join(vac_mine))
     mine = [x for x in fails if pid in x["props"]] + [x for x in undischarged if pid in x["props"]]
+    mp_cov = {}
+    if pid in ("C05", "C12"):
+        # the unchecked forms and append_value must panic exactly when the request is impossible,
+        # with the arena untouched: mechanically derived `requires impossible / ensures false` variants
+        mp = P.mustpanic_check(g)
+        if mp["tools"] or mp["problems"]:
+            raise P.Undecided("must-panic variant could not be built: " + "; ".join(mp["problems"] + [t["message"] for t in mp["tools"]][:2]))
+        for x in mp["fails"] + mp["res"]:
+            x = dict(x)
+            x["props"] = ["C05", "C12"]
+            x["obligation"] = "must-panic variant of " + x["obligation"]
+            mine.append(x)
+        mp_cov = {"must_panic_variants": {"derived_for": mp["derived"], "cmd": mp["result"]["cmd"], "wall_s": round(mp["result"]["wall_s"], 2),
+                                          "failed": [x["obligation"] for x in mp["fails"] + mp["res"]],
+                                          "what": "each function re-verified with requires = the request is impossible and ensures false; expect/assert! "
+                                                  "modelled as returning only when they do not panic; a ghost assertion that the arena is untouched "
+                                                  "sits in front of each"}}
     # obligations
     per_fn = {}
     total = 0
@@ -222,6 +239,7 @@ def decide(pid, tier, seed):
         "violations": len(violations),
     }
     ev["coverage"].update(thorough_extra.get("coverage", {}))
+    ev["coverage"].update(mp_cov)
     os.makedirs(EVID, exist_ok=True)
     json.dump(ev, open(os.path.join(EVID, pid + ".json"), "w"), indent=1)
     if violations:
